@@ -324,6 +324,13 @@ def opElicitor : P String := do
   pure (joinS (["ok", toString st.count, toString st.forwarded.length] ++
     st.forwarded.flatMap (fun e => [toString e.1, toString e.2]) ++ showRats ans))
 
+/-- `distortion m scores… k chosen…` (0-indexed chosen alternatives) → `ok value` -/
+def opDistortion : P String := do
+  let scores ← list rat
+  let chosen ← list nat
+  eol
+  pure s!"ok {showRat (Elicit.distortionOf scores chosen)}"
+
 def dispatch : String → Option (P String)
   | "gs" => some opGs
   | "ff" => some opFf
@@ -350,6 +357,7 @@ def dispatch : String → Option (P String)
   | "rootnsd" => some opRootNSD
   | "m2q" => some opM2q
   | "elicitor" => some opElicitor
+  | "distortion" => some opDistortion
   | op => dispatchFlow op
 
 def handle (line : String) : String :=
